@@ -51,11 +51,13 @@ TOLERANCES = {
     'mixing_entropy': '1e-6 * R * n_total  (+ 10 * (C/T) * 1e-6 K when the receiver temperature was solved)',
 }
 
-CHEMS_Q = ['Water', 'Ethanol', 'Methanol', 'Propanol', 'Hexane', 'Benzene', 'Toluene', 'Acetone', 'AceticAcid', 'Glycerol', 'Octanol', 'Tetradecanol']
-CHEMS_T = CHEMS_Q + ['N2', 'CO2', 'Ammonia', 'Butane']
+# CO2 sublimes at atmospheric pressure (Tm > Tb): the liquid leg Tm -> Tb of the path has negative length; it belongs to the quick core
+CHEMS_Q = ['Water', 'Ethanol', 'Methanol', 'Propanol', 'Hexane', 'Benzene', 'Toluene', 'Acetone', 'AceticAcid', 'Glycerol', 'Octanol', 'Tetradecanol', 'CO2']
+CHEMS_T = CHEMS_Q + ['N2', 'Ammonia', 'Butane', 'Acetylene']
 # thorough: every bundled chemical of DESIGN section 2 with complete Cn(s,l,g)/Tm/Tb/Hvap(Tb)/Hfus data (27 of 28; Glucose's Hvap correlation
 # cannot be evaluated at its Tb and is left out)
-CHEMS_ALL = CHEMS_T + ['1-Butanol', 'Heptane', 'Octane', 'EthylAcetate', 'LacticAcid', 'O2', 'CO', 'H2', 'CH4', 'Propane', 'NaCl']
+CHEMS_ALL = CHEMS_T + ['1-Butanol', 'Heptane', 'Octane', 'EthylAcetate', 'LacticAcid', 'O2', 'CO', 'H2', 'CH4', 'Propane', 'NaCl',
+                       'SF6', 'UF6']          # + further database chemicals with Tm >= Tb (with Acetylene above)
 TG_FINE = sorted(set([250. + 5. * i for i in range(51)]))          # thorough: 5 K steps, in addition to TG
 PG_T = [1e4, 5e4, 101325., 5e5, 1e6, 1e7]
 TG = [250., 275., 298.15, 310., 340., 370., 400., 450., 500.]
@@ -663,4 +665,137 @@ class Setters(System):
     def outcome(self, st, a, obs): return repr((self._mode(st['c']), a[0]))
 
 
-SYSTEMS = [Pure(), Mixture(), Mixing(), Setters()]
+# =========================================================================================================================================
+ALT_METHODS = {'Cn.l': 'DADGOSTAR_SHAW', 'Cn.g': 'POLING_POLY', 'Hvap': 'PITZER'}
+
+def _model(c, which):
+    return {'Cn.l': lambda: c.Cn.l, 'Cn.g': lambda: c.Cn.g, 'Hvap': lambda: c.Hvap}[which]()
+
+def chem_clauses(c, label, after, P=101325., pts=Setters.PTS):
+    """reference state, jumps at Tb / Tm and path assembly of one (free) chemical against its OWN current public data; first violation or None"""
+    mode = ('ref', c.phase_ref)
+    def V(clause, msg, resid, **mm):
+        return Violation(clause, f'{label} (ref {c.phase_ref}) after {after}: ' + msg, match=dict(after=after, **mm), residual=resid)
+    ph = mode[1]
+    H0 = c.H(ph, c.T_ref, c.P_ref); S00 = c.S(ph, c.T_ref, c.P_ref)
+    if abs(H0 - c.H_ref) > 1e-9: return V('reference-H', f'H(ref state) = {H0!r}', abs(H0))
+    if abs(S00 - c.S0) > 1e-9 * max(1., abs(c.S0)): return V('reference-S', f'S(ref state) = {S00!r}, S0 = {c.S0!r}', abs(S00 - c.S0))
+    for tr, Tt, L, hi, lo in (('vap', c.Tb, c.Hvap(c.Tb), 'g', 'l'), ('fus', c.Tm, c.Hfus, 'l', 's')):
+        Hh, Hl = c.H(hi, Tt, P), c.H(lo, Tt, P)
+        if not (abs(Hh - Hl - L) <= 1e-9 * max(abs(L), abs(Hh), abs(Hl)) + 1e-9):
+            return V('jump-H', f'H_{hi}({Tt}) - H_{lo}({Tt}) = {Hh - Hl!r}, latent heat = {L!r}', abs(Hh - Hl - L), transition=tr)
+        Pterm = -R * math.log(P / c.P_ref) if hi == 'g' else 0.
+        Sh, Sl = c.S(hi, Tt, P), c.S(lo, Tt, P)
+        dS = Sh - Sl - Pterm
+        if not (abs(dS - L / Tt) <= 1e-9 * max(abs(L / Tt), abs(Sh), abs(Sl)) + 1e-6 * abs(Pterm) + 1e-9):
+            return V('jump-S', f'S_{hi}({Tt}) - S_{lo}({Tt}) = {dS!r}, latent heat / T = {L / Tt!r}', abs(dS - L / Tt), transition=tr)
+    for q, T in pts:
+        Hr, Sr, Pterm, sH, sS = path_HS(c, mode, q, T, P)
+        H = c.H(q, T, P); S = c.S(q, T, P) - Pterm
+        if not (abs(H - Hr) <= 1e-9 * sH + 1e-9):
+            return V('assembly-H', f'H({q}, {T}) = {H!r}, the path over this chemical\'s own Cn / Hvap / Hfus gives {Hr!r}', abs(H - Hr), phase=q)
+        if not (abs(S - Sr) <= 1e-9 * sS + 1e-6 * abs(Pterm) + 1e-9):
+            return V('assembly-S', f'S({q}, {T}) = {S + Pterm!r}, the path over this chemical\'s own Cn / Hvap / Hfus gives {Sr + Pterm!r}', abs(S - Sr), phase=q)
+    return None
+
+
+class Copies(System):
+    """two-object universe: an original chemical and a copy of it.  Every action edits ONE of the two (model-method switch + the documented
+    `reset_free_energies()`, Tb, Hfus, phase_ref, copy_models_from, reset) or re-copies the original; after every action the clauses are
+    evaluated on BOTH objects, each against its own current public data -- "copies are independent": an edit of one chemical must not move
+    the other's functors."""
+    name = 'c07.copies'
+    merge_across_configs = False
+
+    def warm(self): fx.tmo()
+    def depth(self, tier): return 3 if tier == 'quick' else 4
+    def time_cap(self, tier): return 200 if tier == 'quick' else 900
+
+    def configs(self, tier, seed):
+        ids = ['Ethanol', 'Hexane'] if tier == 'quick' else ['Ethanol', 'Hexane', 'Water', 'AceticAcid']
+        cf = [(ID, p) for ID in ids for p in 'slg']
+        k = seed % len(cf)
+        return cf[k:] + cf[:k]
+
+    def build(self, config):
+        ID, p = config
+        base = chem(ID, ('ref', p))
+        orig = base.copy(ID + '_o')
+        return dict(config=config, o=[orig, orig.copy(ID + '_d')], last=None)
+
+    def _one(self, c):
+        def fdata(h):
+            out = []
+            for f in [getattr(h, ph, None) for ph in 'slg']:
+                d = getattr(f, '__dict__', {})
+                out.append((type(f).__name__, tuple(sorted((k, fx.r12(v)) for k, v in d.items() if isinstance(v, (int, float))))))
+            return tuple(out)
+        try: probes = (fx.r12(c.Hvap(c.Tb)), fx.r12(c.Cn('l', 300.)), fx.r12(c.Cn('g', 400.)), fx.r12(c.H('g', 400., 101325.)), fx.r12(c.H('s', 260., 101325.)))
+        except Exception as e: probes = type(e).__name__
+        return (c.phase_ref, fx.r12(c.Tm), fx.r12(c.Tb), fx.r12(c.Hfus), fx.r12(c.S0), c.Cn.l.method, c.Cn.g.method, c.Hvap.method, probes,
+                fdata(c._H), fdata(c._S))
+
+    def canon(self, st):
+        return (tuple(st['config']), self._one(st['o'][0]), self._one(st['o'][1]))
+
+    def actions(self, st):
+        acts = []
+        for t in (0, 1):
+            c = st['o'][t]
+            acts += [('method', t, w) for w in ('Cn.l', 'Cn.g', 'Hvap')]
+            acts += [('Tb', t, 4.), ('Hfus', t, 1.125), ('reset', t), ('copy_models', t, ('Cn',)),
+                     ('phase_ref', t, 'slg'[('slg'.index(c.phase_ref) + 1) % 3])]
+        acts.append(('recopy',))
+        return acts
+
+    def step(self, st, a):
+        op = a[0]
+        try:
+            if op == 'recopy':
+                st['o'][1] = st['o'][0].copy(st['o'][0].ID + 'd')
+            else:
+                c = st['o'][a[1]]
+                if op == 'method':
+                    # the documented way: change the model, then reset the free energies of THAT chemical
+                    mdl = _model(c, a[2]); alt = ALT_METHODS[a[2]]
+                    if alt not in mdl.all_methods: raise Rejected('alternative method not available', cut=True)
+                    base_method = _model(chem(st['config'][0], ('ref', st['config'][1])), a[2]).method
+                    new_method = alt if mdl.method != alt else base_method
+                    if new_method not in mdl.all_methods:      # e.g. after the models were copied from another chemical
+                        raise Rejected('method to switch back to is not available on the current model object', cut=True)
+                    mdl.method = new_method
+                    c.reset_free_energies()
+                elif op == 'Tb': c.Tb = c.Tb + a[2]
+                elif op == 'Hfus': c.Hfus = c.Hfus * a[2]
+                elif op == 'reset': c.reset_free_energies()
+                elif op == 'copy_models': c.copy_models_from(chem(Setters.DONOR, ('ref', 'l')), list(a[2]))
+                elif op == 'phase_ref': c.phase_ref = a[2]
+                else: raise ValueError(a)
+        except UNDOC as e:
+            raise Violation('unexpected-exception', f'{st["config"]} {a!r}: {type(e).__name__}: {e}', match=dict(exc=type(e).__name__, after=op))
+        st['last'] = a
+        return ('edit', op, a[1] if len(a) > 1 else None)
+
+    def invariants(self, st):
+        a = st['last']
+        if a is None: after, tgt = 'construct', None
+        else: after, tgt = a[0], (a[1] if len(a) > 1 else None)
+        for t, c in enumerate(st['o']):
+            who = 'original' if t == 0 else 'copy'
+            role = 'edited' if tgt == t else ('other' if tgt is not None else 'both')
+            try:
+                v = chem_clauses(c, f'{st["config"][0]} {who}', after)
+            except UNDOC as e:
+                v = Violation('unexpected-exception', f'{st["config"][0]} {who} after {after}: {type(e).__name__}: {e}', match=dict(exc=type(e).__name__, after=after))
+            except RuntimeError:
+                continue          # a third-party correlation refuses to evaluate: outside the compared domain
+            if v is not None:
+                v.match['object'] = role
+                return [v]
+        return []
+
+    def nontrivial(self, st, a, obs): return a[0] != 'reset'
+    def outcome(self, st, a, obs): return repr(obs)
+
+
+SYSTEMS = [Pure(), Mixture(), Mixing(), Setters(), Copies()]
